@@ -426,9 +426,86 @@ def _execute(ctx):
             # ---- C11 loans
             if open_loans is not None and now is not None:
                 check_loans(open_loans, closed_loans, now, where)
+                if bar_ev is not None and lend and M.get("open_loans_prev") is not None:
+                    await check_largest_first_on_fill(bar_ev, fills_this_obs, bal, open_loans, closed_loans)
+            M["open_loans_prev"] = None if open_loans is None else [(l.id, l.borrowed_symbol, l.borrowed_amount) for l in open_loans]
             M["prev_bal"] = bal
             ctx.states.add(hash((len(model_open), len(open_loans or ()), min(M["in_handler"], 4))) & 0xffffffff)
             return bal
+
+        async def check_largest_first_on_fill(bar_ev, fills, bal, open_loans, closed_loans):
+            """C11 largest-first for an auto-repay order closed by a fill. Exact when it is the only order of its pair that
+            was touched by this bar: the funds at the start of its repayment loop are then what is available now plus what
+            the loop paid out."""
+            pi_bar = bar_ev._pi
+            touched = [o for o in (M["orders"][i] for i in M["seq"]) if o["pi"] == pi_bar and o["open_before_bar"]
+                       and (o["closed_at_obs"] == M["nobs"] or any(f[0] is o for f in fills))]
+            if len(touched) != 1:
+                return
+            o = touched[0]
+            if not (o["ar"] and o["closed_at_obs"] == M["nobs"] and o["last"].amount_filled > 0):
+                return
+            sym = pb[o["pi"]] if o["side"] == "buy" else pq[o["pi"]]
+            before = [(lid, amt) for (lid, s_, amt) in M["open_loans_prev"] if s_ == sym]
+            if len(before) < 1:
+                return
+            now_open = {l.id: l for l in open_loans}
+            now_closed = {l.id: l for l in closed_loans}
+            cand = []
+            for lid, amt in before:
+                if lid in now_open:
+                    cand.append((lid, amt, dict(now_open[lid].outstanding_interest), False))
+                elif lid in now_closed:
+                    cand.append((lid, amt, dict(now_closed[lid].paid_interest), True))
+                else:
+                    return
+            avail = {s_: b_.available for s_, b_ in bal.items()}
+            for lid, amt, intr, repaid in cand:
+                if repaid:
+                    avail[sym] = avail.get(sym, D(0)) + amt
+                    for s_, v in intr.items():
+                        avail[s_] = avail.get(s_, D(0)) + v
+            order = sorted(cand, key=lambda x: x[1], reverse=True)
+            if len({a for _, a, _, _ in order}) != len(order):
+                return            # ties in principal may be taken in either order
+            expect = set()
+            for lid, amt, intr, repaid in order:
+                cost = collections.defaultdict(D)
+                cost[sym] += amt
+                for s_, v in intr.items():
+                    cost[s_] += v
+                if all(avail.get(s_, D(0)) >= v for s_, v in cost.items()):
+                    expect.add(lid)
+                    for s_, v in cost.items():
+                        avail[s_] -= v
+            got = {lid for lid, _, _, repaid in order if repaid}
+            if len(order) >= 2:
+                ctx.probes["autorepay_with_2_loans"] += 1
+            if got == expect:
+                ctx.probes["largest_first_checked"] += 1
+                return
+            shape = "largest-first"
+            why = ""
+            for lid in [l for l, _, _, _ in order if l in expect and l not in got][:1]:
+                try:
+                    await e.repay_loan(lid)
+                    M["loans"].get(lid, {})["explained"] = True
+                    M["dirty"] = True
+                    shape = "affordable-loan-skipped"
+                    why = "; repaying it right afterwards, in the same state, succeeds"
+                except errors.NotEnoughBalance as x:
+                    if "Margin level too low" in str(x):
+                        shape = "margin-veto-of-affordable-repayment"
+                        why = f"; repaying it right afterwards is vetoed by the margin rule ({x})"
+                    else:
+                        shape = None
+                except errors.Error:
+                    shape = None
+            if shape:
+                V("C11", "largest-first", f"auto-repay {o['kind']} {o['side']} order completed by the bar at {bar_ev.when}: loans in {sym} "
+                                          f"(principal, repaid) {[(str(a), r) for _, a, _, r in order]}; with the funds available when the "
+                                          f"order closed, greedy largest-first repays {[(str(a), l in expect) for l, a, _, _ in order]}" + why,
+                  shape=shape)
 
         def check_fill(o, oi, fb, fq, ff, pi_bar, br, when):
             kind, side = o["kind"], o["side"]
@@ -1338,11 +1415,19 @@ def META(prop):
         assumptions=["observations use the public API only (get_balances/get_orders/get_open_orders/get_order_info/get_loans, order and bar events)",
                      "inputs have <= 10 significant digits so every product the oracles form is exact in the 28-digit decimal context",
                      "initial balances and loan amounts are on the precision grid and non-negative"],
-        probes_expected=["partial_fill", "nonmarket_fill", "close_filled", "close_cancelled", "close_fok",
-                         "accepted_with_exactly_R", "rejected_one_unit_short", "competing_orders_in_bar",
-                         "liquidity_cap_binding", "multi_fill_fee_remainder", "auto_borrow_loan",
-                         "rollback_after_loan_created", "loan_granted_with_existing_debt", "largest_first_checked",
-                         "progress_checked"],
+        probes_expected={
+            "C01": ["partial_fill", "close_cancelled", "auto_borrow_loan", "offgrid_loan"],
+            "C02": ["repay_refused", "competing_orders_in_bar", "auto_borrow_loan"],
+            "C03": ["partial_fill"],
+            "C04": ["nonmarket_fill", "partial_fill", "progress_checked"],
+            "C05": ["close_filled", "close_cancelled", "close_fok"],
+            "C06": ["accepted_with_exactly_R", "rejected_one_unit_short", "close_with_loan_open"],
+            "C07": ["rollback_after_loan_created", "offgrid_loan"],
+            "C08": ["competing_orders_in_bar", "liquidity_cap_binding", "fok_for_liquidity"],
+            "C09": ["multi_fill_fee_remainder"],
+            "C10": ["loan_granted_with_existing_debt", "loan_near_boundary", "lender_reused", "auto_borrow_loan"],
+            "C11": ["autorepay_with_2_loans", "largest_first_checked", "repay_refused", "rollback_after_loan_created"],
+        }.get(prop, []),
         states_measure="distinct (#open orders, #open loans, handlers in flight) triples at observation points",
     )
 
